@@ -93,17 +93,21 @@ class Stress:
         dag = [self.frag_name(used) for _ in range(self.n_frag)]
         casefold_pairs = []
         if "casefold" in self.features:
-            base = r.choice(dag)
-            variants = []
-            for _ in range(r.randint(1, 3)):
+            # 2-4 names that differ only in letter case, none of them all-upper (isort would class it apart);
+            # standalone leaf fragments spread together by one operation: nothing inherits them, so all of
+            # them stay bases of the operation's class and names of its `from .fragments import`
+            base = r.choice(NAME_PARTS).capitalize() + r.choice(["Data", "Part", "Bits"]) + r.choice(["", "1", "2"])
+            variants = [base]
+            for _ in range(20):
                 v = "".join(c.upper() if (c.isalpha() and r.random() < 0.5) else c.lower() for c in base)
                 v = v[0].upper() + v[1:]
-                if v != base and v not in used and v not in variants and v[0].isalpha():
+                if v not in variants and any(c.islower() for c in v) and v.lower() not in {u.lower() for u in used}:
                     variants.append(v)
+                if len(variants) >= r.randint(2, 4):
+                    break
             for v in variants:
                 used.add(v)
-                dag.append(v)
-            casefold_pairs = [base] + variants
+            casefold_pairs = variants
         for i, n in enumerate(dag):
             fields = r.sample(t0_fields, r.randint(1, 3))
             later = dag[i + 1:]
@@ -111,6 +115,8 @@ class Stress:
             parts = fields + ["..." + s for s in spreads]
             r.shuffle(parts)
             frs[n] = ("T0", "{ " + " ".join(parts) + " }")
+        for v in casefold_pairs:
+            frs[v] = ("T0", "{ " + " ".join(r.sample(t0_fields, r.randint(1, 2))) + " }")
         # --- a mixin chain on another type
         other = r.choice([n for n in self.objs if n != "T0"])
         of = [k for k, v in self.objs[other][1].items() if k not in ("link", "many")]
